@@ -174,7 +174,9 @@ EcValid1(e) == Stay /\ tlast' = Verdict(e, e.outcome = "ok" /\ (e.valid = 1) = (
 A(e) == BFromBE(e.a)
 Bv(e) == BFromBE(e.b)
 FpExpected(e) == IF e.f = "add" THEN BAddMod(A(e), Bv(e), PP) ELSE IF e.f = "sub" THEN BSubMod(A(e), Bv(e), PP)
-                 ELSE IF e.f = "mul" THEN BMulMod(BMulMod(A(e), Bv(e), PP), RInvP, PP)
+                 ELSE IF e.f \in {"mul", "tmul"} THEN BMulMod(BMulMod(A(e), Bv(e), PP), RInvP, PP)          \* stored representatives: a b R^-1 (tmul: through the trait method)
+                 ELSE IF e.f = "sqr" THEN BMulMod(BMulMod(A(e), A(e), PP), RInvP, PP)
+                 ELSE IF e.f = "div2" THEN BMulMod(A(e), BPowMod(<<2>>, BSub(PP, <<2>>), PP), PP)
                  ELSE IF e.f = "neg" THEN BSubMod(BZero, A(e), PP) ELSE IF e.f = "dbl" THEN BAddMod(A(e), A(e), PP) ELSE IF e.f = "tpl" THEN BMulMod(A(e), <<3>>, PP)
                  ELSE IF e.f = "to_mont" THEN ToMont(A(e)) ELSE IF e.f = "from_mont" THEN FromMont(A(e))
                  ELSE IF e.f = "inv" THEN ToMont(C!FInv(FromMont(A(e))))
